@@ -279,3 +279,119 @@ Proof.
       apply (wst_eq spec rn s s2 (ysum nfl x + ysum nfl (YDict l))%nat); [reflexivity|]. eapply wst_trans; eauto. }
     specialize (H s). destruct (go l s). exact H.
 Qed.
+
+(* ------------------------------------------------------------------ the invariant is preserved by every step *)
+Lemma W_le spec rn s rn' s' : top_next s' = top_next s ->
+  (forall k, (rem spec rn' s' k <= rem spec rn s k)%nat) -> (W spec rn' s' <= W spec rn s)%nat.
+Proof.
+  intros Et H. unfold W, pot. rewrite Et.
+  pose proof (list_sum_le (rem spec rn' s') (rem spec rn s) (seq 0 (Z.to_nat (top_next s))) (fun k _ => H k)). lia.
+Qed.
+
+Lemma W_gq spec s s' : gq s s' -> (W spec None s' <= W spec None s)%nat.
+Proof. intros G. apply W_le; [apply G|]. intros k. apply rem_gq. exact G. Qed.
+
+Lemma rem_computed spec rn s k : computed [Z.of_nat k] s = true -> rem spec rn s k = O.
+Proof. unfold rem, computed. destruct (get [Z.of_nat k] s) as [[[o|] [tk| | |]]|]; try reflexivity; discriminate. Qed.
+
+Lemma rem_rn_self_le spec t p s k : fid_eqb t [Z.of_nat k] = true -> (rem spec (Some (t, p)) s k <= nf p)%nat.
+Proof. intros E. unfold rem. destruct (get [Z.of_nat k] s) as [[[o|] [tk| | |]]|]; try lia. rewrite E. lia. Qed.
+
+Lemma rem_rn_self_eq spec t p s k tk : get [Z.of_nat k] s = Some (mkFut None (KTask tk)) -> fid_eqb t [Z.of_nat k] = true ->
+  rem spec (Some (t, p)) s k = nf p.
+Proof. intros G E. unfold rem. rewrite G, E. reflexivity. Qed.
+
+Lemma rem_none_eq spec s k tk g : get [Z.of_nat k] s = Some (mkFut None (KTask tk)) -> tk_gen tk = Some g ->
+  rem spec None s k = nf (g (unwrap (look_spec spec) (tk_last tk))).
+Proof. intros G E. unfold rem. rewrite G, E. reflexivity. Qed.
+
+Lemma rem_get_eq spec rn s s' k : get [Z.of_nat k] s' = get [Z.of_nat k] s -> rem spec rn s' k = rem spec rn s k.
+Proof. intros E. unfold rem. rewrite E. reflexivity. Qed.
+
+Lemma SInv_above_free spec r s : SInv spec r s -> above_free s.
+Proof.
+  intros HS n Hn. destruct (get [n] s) as [f|] eqn:E; [|reflexivity].
+  destruct (SInv_entry _ _ _ _ _ HS E) as ((n' & En & Hn') & _). inversion En; subst n'. lia.
+Qed.
+
+Ltac gqt :=
+  repeat match goal with
+  | |- gq ?s ?s => apply gq_refl
+  | |- gq ?a (emit _ ?X) => apply (gq_trans a X); [|apply gq_view; reflexivity]
+  | |- gq ?a (pop_task ?X) => apply (gq_trans a X); [|apply gq_view; reflexivity]
+  | |- gq ?a (with_tasks ?X _) => apply (gq_trans a X); [|apply gq_view; reflexivity]
+  | |- gq ?a (with_active ?X _) => apply (gq_trans a X); [|apply gq_view; reflexivity]
+  | |- gq ?a (reset_sched ?X) => apply (gq_trans a X); [|apply gq_view; reflexivity]
+  | |- gq ?a (drop_sb ?X) => apply (gq_trans a X); [|apply gq_view; [apply heap_drop_sb|apply top_next_drop_sb]]
+  | |- gq ?a (schedule_batch _ ?X) => apply (gq_trans a X); [|apply gq_schedule_batch]
+  | |- gq ?a (resume_contexts _ ?X) => apply (gq_trans a X); [|apply gq_resume_contexts]
+  | |- gq ?a (pause_contexts _ ?X) => apply (gq_trans a X); [|apply gq_pause_contexts]
+  | |- gq ?a (complete_task _ _ ?X) => apply (gq_trans a X); [|apply gq_complete_task]
+  | |- gq ?a (accept_error _ _ ?X) => apply (gq_trans a X); [|apply gq_accept_error]
+  | |- gq ?a (enter_ctx _ _ ?X) => apply (gq_trans a X); [|apply gq_enter_ctx]
+  | |- gq ?a (exit_ctx _ _ ?X) => apply (gq_trans a X); [|apply gq_exit_ctx]
+  | |- gq ?a (flush_batch _ _ ?X) => apply (gq_trans a X); [|apply gq_flush_batch]
+  | |- gq ?a (continue_with_batch _ ?X) => apply (gq_trans a X); [|apply gq_cwb]
+  | |- gq ?a (put ?x (mkFut _ (KLazy _)) ?X) => apply (gq_trans a X); [|apply gq_put; intros ? E; discriminate E]
+  | G : get ?x ?s = Some (mkFut _ (KTask ?tk)) |- gq ?a (set_task ?x (tk_set_ds ?tk _) ?s) =>
+      apply (gq_trans a s); [|apply (gq_set_task x _ tk _ s G); left; split; reflexivity]
+  | G : get ?x ?s = Some (mkFut _ (KTask ?tk)) |- gq ?a (set_task ?x (mkTask None _ _ _ _ _ _ _) ?s) =>
+      apply (gq_trans a s); [|apply (gq_set_task x _ tk _ s G); right; reflexivity]
+  end.
+
+Section AllocStep.
+  Variable P : params.
+  Hypothesis HP : pointwise P.
+  Variable root : fid.
+  Variable res : outcome.
+  Variable C : nat.
+
+  Definition JW (spec : specmap) (c : cfg) : Prop := (W spec (rn_of (c_mode c)) (c_st c) <= C)%nat.
+  Definition J (c : cfg) : Prop := exists spec, CInv root res spec c /\ JW spec c.
+
+  Lemma J_intro spec c : CInv root res spec c -> JW spec c -> J c.
+  Proof. intros A B. exists spec. auto. Qed.
+
+  Ltac splitJ :=
+    repeat match goal with
+    | |- JW _ (if ?x then _ else _) => destruct x eqn:?
+    | |- JW _ (match ?x with _ => _ end) => destruct x eqn:?
+    end.
+
+  (* a leaf: not running before, not running after, nothing created *)
+  Ltac leafJ HW := unfold JW; cbn [c_mode c_st rn_of]; (eapply Nat.le_trans; [apply W_gq|exact HW]); gqt.
+
+  Lemma j_quiet spec m fr s : (forall t p, m <> MRun t p) -> is_unwind m = false ->
+    CInv root res spec (mkC m fr s) -> JW spec (mkC m fr s) -> JW spec (step P (mkC m fr s)).
+  Proof.
+    intros Hm Hu HC HW. unfold JW in HW. cbn [c_mode c_st] in HW.
+    assert (Hrn : rn_of m = None) by (destruct m; try reflexivity; exfalso; eapply Hm; reflexivity). rewrite Hrn in HW.
+    destruct m as [h| | | |t|t p| |o|e|o|]; try (exfalso; eapply Hm; reflexivity); clear Hm Hrn.
+    - cbn [step c_mode c_frames c_st]. splitJ; leafJ HW.
+    - cbn [step c_mode c_frames c_st]. splitJ; leafJ HW.
+    - cbn [step c_mode c_frames c_st]. splitJ; leafJ HW.
+    - cbn [step c_mode c_frames c_st]. splitJ; leafJ HW.
+    - (* MResume *)
+      destruct HC as (Hr & Hf & HS & Ht & (tk & Hg & Hcomp)). cbn [c_mode c_frames c_st running_of] in *.
+      cbn [step c_mode c_frames c_st]. unfold get_task. rewrite Hg.
+      destruct (tk_gen tk) as [k|] eqn:Ek; [|splitJ; leafJ HW].
+      unfold JW. cbn [c_mode c_st rn_of]. eapply Nat.le_trans; [|exact HW].
+      apply W_le; [unfold set_task; rewrite Hg; reflexivity|]. intros k0.
+      destruct (fid_eqb t [Z.of_nat k0]) eqn:E.
+      + apply fid_eqb_eq in E. subst t.
+        rewrite (rem_none_eq spec s k0 tk k Hg Ek).
+        rewrite <- (look_agree spec None s (tk_last tk) HS Hcomp).
+        apply rem_rn_self_le. apply fid_eqb_refl.
+      + rewrite (rem_rn_other _ _ _ _ _ E). apply Nat.eq_le_incl. apply rem_get_eq.
+        rewrite get_emit. apply get_set_task_other. intros E'. rewrite <- E', fid_eqb_refl in E. discriminate.
+    - (* MContRet *)
+      cbn [step c_mode c_frames c_st]. destruct fr as [|[| | | |t old] fr']; try (leafJ HW).
+      destruct (get_task t (with_active s old)) as [tk|] eqn:G; [|apply gq_view; reflexivity].
+      apply (gq_trans s (with_active s old)); [apply gq_view; reflexivity|].
+      apply (gq_set_task_gt t tk); [exact G|left; split; reflexivity].
+    - destruct HC as (_ & Hf & _). cbn in Hf. subst fr. cbn [step c_mode c_frames c_st]. leafJ HW.
+    - discriminate Hu.
+    - cbn [step c_mode c_frames c_st]. leafJ HW.
+    - cbn [step c_mode c_frames c_st]. leafJ HW.
+  Qed.
+End AllocStep.
